@@ -9,7 +9,7 @@ def contexts(ch, ctx, did, **kw):
 
 def obligations(tier):
     obs = []
-    for did, steps in [("D03p", 4), ("D06p", 6), ("D08", 4), ("D09", 8), ("D09b", 8), ("D12p", 7), ("D13", 4), ("D13v", 4), ("D13i", 4), ("D13d", 6), ("D13e", 5), ("D27", 6), ("D18", 5), ("D20", 5)]:
+    for did, steps in [("D03p", 4), ("D06p", 6), ("D08", 4), ("D09", 8), ("D09b", 8), ("D12p", 7), ("D13", 4), ("D13v", 4), ("D13i", 4), ("D13d", 6), ("D13e", 5), ("D27", 6), ("D18", 5), ("D20", 5), ("D30", 4)]:
         o = ob("C06", "e2c." + did, "vt.harness.C06:contexts", {"did": did, "steps": steps}, timeout=900)
         o["antecedents"] = ["c06_ctx_matched"]
         obs.append(o)
